@@ -13,19 +13,25 @@ Alphabet / bound / oracle per sub-check (all complete enumerations of the stated
            and recursive Szudzik, d=4 RosenbergStrong): every state of a box [-n,n]^d is hit exactly once by project over
            indices < (2n+1)^d (those pairings that enumerate square shells), pair o project = id on all indices,
            project o pair = id on all states of the box
- z1d       PairingToZ1d, omit_zero on and off: all 1 <= L,R <= N; increasing enumeration is a bijection onto [-L,R]\\{0}
-           (onto [-L,R] when zero is kept), pair inverts it; explicit-state search over histories of events on one object:
-           project(i) for every index i; project(j) on a SECOND object of another interval used in between (three indices);
-           the object replaced by a deepcopy of itself.  invariant project(i | history) = reference(i) (both objects);
-           canonical state = (_switch, _kk, cached (index, value) pairs before / after the last copy and of the 2nd object)
+ z1d       PairingToZ1d, omit_zero on and off: all 0 <= L,R <= N with L+R >= 1 (L = 0 / R = 0: an EMPTY half axis, the
+           interval the sampling factory builds for a 1-d grid whose origin is its first / last point; [0,0] with zero kept:
+           one state); increasing enumeration is a bijection onto [-L,R]\\{0} (onto [-L,R] when zero is kept), pair
+           inverts it, also with numpy integers as arguments (what numpy.random.choice hands to project on exhaustion);
+           explicit-state search over histories of events on one object: project(i) for every index i; project(j) on a
+           SECOND object of another interval ([-(R+1), L]: one-sided the other way when L = 0) used in between (three
+           indices); the object replaced by a deepcopy / a copy.copy / a dill round trip of itself.  invariant
+           project(i | history) = reference(i) (both objects); canonical state = (_switch, _kk, cached (index, value) pairs
+           before / after the last copy and of the 2nd object, kinds of copies made)
  lazy      lazy_indices_product(sizes) for every size tuple of length <= 4 with entries 1..4 == itertools.product (as list:
            exactly once each); two generators alive at once (sizes / reversed sizes) consumed alternately and a second
            call afterwards give what each gives alone
- states    StatesManager.project_index_to_state_increment over increasing indices, for 1-d grids (L,R) <= 5 and 2-d / 3-d
-           grids with per-axis (left,right) sizes <= 2/3, without boundary and with the rectangle / simplex boundaries
-           (1-d: rectangle), 2-d also over the pairings the factory does not take (RosenbergStrong, Cantor, PepisKalmar,
-           thorough: hyperbolic): every admissible non-origin state exactly once, then exhaustion; then the restart
-           protocol (x == max_logged) driven directly for three log sizes.
+ states    StatesManager.project_index_to_state_increment over increasing indices, for 1-d grids 0 <= L,R <= 5 (thorough 8)
+           and 2-d / 3-d grids with per-axis (left,right) sizes 0..2 (thorough 0..4 / 0..3), ONE-SIDED grids included (the
+           origin is the first / last point of every axis, left or right size 0; every axis keeps >= 2 points), without
+           boundary and with the rectangle / simplex boundaries (1-d: rectangle; an empty half axis gets the truncation of
+           a half axis of one point), 2-d also over the pairings the factory does not take (RosenbergStrong, Cantor,
+           PepisKalmar, thorough: hyperbolic): every admissible non-origin state exactly once, then exhaustion; then the
+           restart protocol (x == max_logged) driven directly for three log sizes.
  inversion the same enumeration observed where the library consumes it: a real InversionMethod on a real StatesManager
            (pairing chosen as create_sampling_inversion_method does), probabilities that record the states they are asked
            for, scripted u.  The log of the sampler is bounded (the library's bound of 1e6 states is scaled down by setting
@@ -33,21 +39,38 @@ Alphabet / bound / oracle per sub-check (all complete enumerations of the stated
            has one interval of 1 000 033 states with the library's bound untouched.  Histories: EVERY word of `depth`
            (2 or 3) draws over the targets {first state, last logged, first / second beyond the log, middle of the rest,
            last state, beyond the total mass (= exhaustion)}, each word on a fresh sampler, plus every (draw, deepcopy of
-           the sampler, draw) and (draw, a second sampler on a larger grid exhausted in between, draw).  Oracle per draw:
+           the sampler, draw), (draw, copy.copy of the sampler, draw: depth 3 only) and (draw, a second sampler on a larger
+           grid exhausted in between, draw); u is handed over as numpy.float64 (what Uniform.sample gives) / float / keyword
+           in turn; shapes include one-sided grids in 1-d, 2-d (thorough: 3-d), with and without boundary.  Oracle per draw:
            the states walked are consecutive states of the enumeration, none twice, starting no later than the first state
            never produced so far and ending at the state the draw needs (the last admissible one for an exhausting draw),
            and the state returned is the one of the wanted rank.
  reuse     histories on RE-USED objects: one Domain (with its grid and pairing objects) kept through every word of
            `depth` (2; thorough 3 in 1-d/2-d) operations out of {grid.refine() in place (what Coupling*.next_level does; in
            1-d the interval pairing is rebuilt and re-assigned to domain.pairing), domain.grid re-assigned to a larger
-           grid, domain.boundary re-assigned (none <-> rectangle), deepcopy of the Domain (the copy is used from then
-           on), a second Domain on a larger grid enumerated in between (sharing boundary and, in n-d, pairing objects), a
-           manager left half-way}; at construction and after every operation a NEW StatesManager on the kept Domain must
-           enumerate exactly the admissible states of what the Domain holds now (brute force over the grid's public axes /
+           grid, domain.boundary re-assigned (none <-> rectangle), deepcopy of the Domain / dill round trip of the Domain
+           (the copy is used from then on), a second Domain on a larger grid enumerated in between (sharing boundary and,
+           in n-d, pairing objects), a manager left half-way}, on two-sided and one-sided grids; at construction and after
+           every operation a NEW StatesManager on the kept Domain must enumerate exactly the admissible states of what the Domain holds now (brute force over the grid's public axes /
            origin index and the boundary predicate), directly and through a sampler's exhausting draw.
+ forms     argument forms and copies (differential, exact: "same answer as the usual form", whatever that answer is):
+           Pairing.pairing / pairing2d / projection / projection2d of the five pairings with list, int64 / int32 array, tuple
+           of numpy integers, numpy scalar, 0-d array, keywords, d = 2 and 3 (small square / first indices, and three pairs
+           near 4000); PairingToZd.pair / project likewise and after deepcopy / copy.copy / dill of the object;
+           PairingToZ1d built from tuple / list / array / numpy integers / keywords / a list the caller modifies afterwards,
+           project / pair with numpy integers and keywords (8 interval shapes incl. one-sided, zero kept or not);
+           lazy_indices_product with tuple / array / list of numpy integers / keyword; StatesManager.
+           project_index_to_state_increment with numpy index, keywords, positional max_logged, positional constructor, and a
+           deepcopy / copy.copy / dill round trip of the manager taken after 0, 1, half, all states: the copy continues like
+           the original and the original is not disturbed by its copy.  Argument arrays / lists are compared with a copy
+           taken before the call.  A form the library rejects (raises) is outside the alphabet: counted
+           (form-rejected-by-the-library:*), never an alarm - unless the library itself uses the form (numpy integer
+           indices handed to projection / project, tuples of Python integers, deepcopy and dill of the objects).
 
-Exclusions (statement silent / not constructible): L = 0 or R = 0 intervals (PairingToZ1d states L, R > 0); grids whose axes
-have different origin indices (CTMCGrid takes one origin index: counted as skipped-unrepresentable-origin); MyBoundary (not
+Exclusions (statement silent / not constructible): the interval [0,0] with zero omitted (no state); n-d grids with an axis of a
+single point; float coordinates / indices (the statement is about integers; some pairings reject them); sizes modified by
+the caller while a lazy product is being consumed (the generator reads its argument lazily; the library never does that);
+grids whose axes have different origin indices (CTMCGrid takes one origin index: counted as skipped-unrepresentable-origin); MyBoundary (not
 convex, Domain's docstring excludes it); boundaries not containing the origin; a StatesManager built BEFORE its grid was
 refined and used afterwards (stale by construction: the library rebuilds the sampler); the state handed out together with
 the exhaustion signal (drawn with numpy's global generator: stubbed, not judged - C02's subject); Pepis-Kalmar domains larger
@@ -67,16 +90,20 @@ LEVEL = "model_checking"
 RULE = (
     "complete ranges of indices and coordinate tuples, complete products of interval shapes / size tuples / grid shapes / "
     "pairings / boundaries / log bounds, BFS over call orders of the stateful 1-d projection (with a second object and "
-    "deepcopy as events), every word of 2-3 scripted draws of the real inversion sampler over a menu of targets, every word "
+    "three kinds of copies as events), every legal argument form of every entry point against the usual form, every word of 2-3 scripted draws of the real inversion sampler over a menu of targets, every word "
     "of 2-3 public operations on a re-used Domain; a case is non-trivial when it compares at least one round trip / "
     "enumeration / walk against the reference (itertools / explicit list / brute force over the grid); distinct = distinct "
     "case dict"
 )
 ASSUMPTIONS = [
     "ranges are bounded as stated in the evidence counters; near-perfect-power probes cover the library's own size limit",
-    "z1d call-order search: the menu is every index of the interval plus three indices of a second object plus deepcopy, "
-    "depth as stated; states merged when (_switch,_kk,cache contents per object and copy generation) agree - the only "
-    "fields project() reads or writes",
+    "z1d call-order search: the menu is every index of the interval plus three indices of a second object plus deepcopy / "
+    "copy.copy / dill round trip, depth as stated; states merged when (_switch,_kk,cache contents per object and copy "
+    "generation, kinds of copies made) agree - the only fields project() reads or writes",
+    "an interval with an empty half axis ([0,R], [-L,0]) is an interval shape: the sampling factory builds it for a 1-d grid "
+    "whose origin is its first / last point, and the unchanged code enumerates it correctly",
+    "forms: an argument form the library rejects is outside the alphabet (counted); integer-valued forms only, values small "
+    "enough that fixed-width numpy integers do not overflow",
     "inversion: the bound of the sampler's log (1e6 states in the library) is scaled down through its attribute "
     "_max_storage (skipped and counted if the attribute does not exist); thorough has one case with the bound untouched",
     "numpy.random.choice (state handed out on exhaustion) is stubbed by 'first element' while the library runs; that state "
@@ -297,7 +324,7 @@ def cases(tier):
     return out
 
 
-REUSE_OPS = ["refine", "regrid", "boundary", "copy", "other", "half"]
+REUSE_OPS = ["refine", "regrid", "boundary", "copy", "dill", "other", "half"]
 
 
 # ----------------------------------------------------------------------------------------------------------------------
@@ -623,8 +650,15 @@ def _sub_z1d(sh, case):
     ref = seq if sorted(seq) == states else zero + _z1d_reference(L, R)
     if sorted(seq) == states:
         q = PairingToZ1d((-L, R), **kw)
-        npseq = [int(q.project(np.int64(i))) for i in reversed(range(n))][::-1]
-        nppair = [int(q.pair(np.int64(v))) for v in seq]
+        try:
+            npseq = [int(q.project(np.int64(i))) for i in reversed(range(n))][::-1]
+        except Exception as e:  # noqa  (the library itself calls project with the numpy integers numpy.random.choice returns)
+            npseq = repr(e)
+        try:
+            nppair = [int(q.pair(np.int64(v))) for v in seq]
+        except Exception:  # noqa  (a form the library does not use: rejected = outside the alphabet)
+            sh.count("form-rejected-by-the-library:z1d:pair:numpy-int64")
+            nppair = list(range(n))
         sh.count("evaluations", 2 * n)
         if npseq != seq or nppair != list(range(n)):
             sh.violation(f"C14:z1d:numpy-integer-argument-answers-differently:{shape}",
@@ -757,8 +791,8 @@ def _sub_forms(sh, case):
             a32 = np.array([x, y], dtype=np.int32)
             if max(x, y) < 1000:
                 F.check("int32-array", z, lambda: p.pairing(a32), w, arg=a32)
-            F.check("tuple-of-numpy-integers", z, lambda: p.pairing((np.int64(x), np.int64(y))), w, used=True)
-            F.check("pairing2d-of-numpy-integers", z, lambda: p.pairing2d(np.int64(x), np.int64(y)), w, used=True)
+            F.check("tuple-of-numpy-integers", z, lambda: p.pairing((np.int64(x), np.int64(y))), w)
+            F.check("pairing2d-of-numpy-integers", z, lambda: p.pairing2d(np.int64(x), np.int64(y)), w)
             F.check("keyword", z, lambda: p.pairing(x=(x, y)), w)
         for z in list(range(case["zmax"])) + [10 ** 6 + k for k in range(-2, 3)]:
             t = _proj2(p, name, z)
@@ -776,7 +810,7 @@ def _sub_forms(sh, case):
                 F.check("d3:keywords", t, lambda: p.projection(z=z, dim=3), f"projection({z},3)")
                 t = _ints(t)
                 F.check("d3:list", z, lambda: p.pairing(list(t)), f"pairing({t})")
-                F.check("d3:tuple-of-numpy-integers", z, lambda: p.pairing(tuple(np.int64(v) for v in t)), f"pairing({t})", used=True)
+                F.check("d3:tuple-of-numpy-integers", z, lambda: p.pairing(tuple(np.int64(v) for v in t)), f"pairing({t})")
                 a = np.array(t)
                 F.check("d3:int64-array", z, lambda: p.pairing(a), f"pairing({t})", arg=a)
         sh.outcome(("forms", name, len(pts)))
@@ -792,13 +826,13 @@ def _sub_forms(sh, case):
                 i = p.pair(t)
                 w = f"pair({t}), omit_zero={omit}"
                 if how_name != "fresh":
-                    F.check(f"object-after-{how_name}", i, lambda: q.pair(t), w, used=True)
-                    F.check(f"object-after-{how_name}", t, lambda: q.project(i), f"project({i})", used=True)
+                    F.check(f"object-after-{how_name}", i, lambda: q.pair(t), w, used=how_name != "shallow-copy")
+                    F.check(f"object-after-{how_name}", t, lambda: q.project(i), f"project({i})", used=how_name != "shallow-copy")
                     continue
                 F.check("list", i, lambda: p.pair(list(t)), w)
                 a = np.array(t)
                 F.check("int64-array", i, lambda: p.pair(a), w, arg=a)
-                F.check("tuple-of-numpy-integers", i, lambda: p.pair(tuple(np.int64(v) for v in t)), w, used=True)
+                F.check("tuple-of-numpy-integers", i, lambda: p.pair(tuple(np.int64(v) for v in t)), w)
                 F.check("keyword", i, lambda: p.pair(x=t), w)
                 F.check("project:numpy-int64", t, lambda: p.project(np.int64(i)), f"project({i})", used=True)
                 F.check("project:0-d-array", t, lambda: p.project(np.array(i)), f"project({i})")
@@ -837,7 +871,7 @@ def _sub_forms(sh, case):
         o = PairingToZ1d((-L, R), omit_zero=omit)
         F.check("project:0-d-array", seq, lambda: [o.project(np.array(i)) for i in range(n)], "project(np.array(i))")
         F.check("pair:keyword", pairs, lambda: [o.pair(x=v) for v in members], "pair(x=state)")
-        F.check("pair:numpy-int64", pairs, lambda: [o.pair(np.int64(v)) for v in members], "pair(np.int64(state))", used=True)
+        F.check("pair:numpy-int64", pairs, lambda: [o.pair(np.int64(v)) for v in members], "pair(np.int64(state))")
         o = PairingToZ1d((-L, R), omit_zero=omit)
         F.check("project:numpy-int64", seq, lambda: [o.project(np.int64(i)) for i in range(n)], "project(np.int64(i))", used=True)
         sh.outcome(("forms-z1d", L, R, omit, tuple(_ints(seq))))
@@ -884,7 +918,7 @@ def _sub_forms(sh, case):
         with _ScriptedChoice():
             usual = run(new(), lambda sm, x: sm.project_index_to_state_increment(x))
             w = f"shape {shape}, boundary {bnd}"
-            F.check("x-numpy-int64", flat(usual), lambda: flat(run(new(), lambda sm, x: sm.project_index_to_state_increment(np.int64(x)))), w, used=True)
+            F.check("x-numpy-int64", flat(usual), lambda: flat(run(new(), lambda sm, x: sm.project_index_to_state_increment(np.int64(x)))), w)
             F.check("keywords", flat(usual), lambda: flat(run(new(), lambda sm, x: sm.project_index_to_state_increment(x=x, max_logged=-1))), w)
             F.check("positional-max-logged", flat(usual), lambda: flat(run(new(), lambda sm, x: sm.project_index_to_state_increment(x, -1))), w, used=True)
             F.check("constructor-positional", flat(usual),
@@ -902,7 +936,8 @@ def _sub_forms(sh, case):
                     except Exception:  # noqa
                         sh.count(f"form-rejected-by-the-library:states:{how_name}")
                         continue
-                    F.check(f"manager-after-{how_name}", flat(usual[k:]), lambda: flat(run(cp, plain, k)), w + f" copied after {k} states", used=True)
+                    F.check(f"manager-after-{how_name}", flat(usual[k:]), lambda: flat(run(cp, plain, k)), w + f" copied after {k} states",
+                            used=how_name != "shallow-copy")
                     F.check(f"original-after-its-{how_name}-was-used", flat(usual[k:]), lambda: flat(run(sm, plain, k)), w + f" copied after {k} states", used=True)
         sh.outcome(("forms-states", tuple(shape), bnd, len(usual)))
     else:
@@ -1266,7 +1301,8 @@ def _sub_inversion(sh, case):
     if depth:
         # "copy": the sampler is replaced by a deepcopy of itself between two draws (what the engines do when they hand the
         # process to the workers of a pool); "other": a second sampler on a larger grid draws beyond its total mass in between
-        words += [(a, ev, b) for ev in ("copy", "other") for a in names for b in names]
+        # "shallow" (words of depth 3 only): copy.copy of the sampler - log and manager are shared with the original
+        words += [(a, ev, b) for ev in ("copy", "other") + (("shallow",) if depth >= 3 else ()) for a in names for b in names]
     bcls = "no-boundary" if bnd == "none" else f"{bnd}-boundary"
     if any(0 in lr for lr in shape):
         bcls += ":one-sided"
@@ -1279,7 +1315,7 @@ def _sub_inversion(sh, case):
             reported.add(kind)
             sh.violation(f"{prefix}:{kind}", what, detail)
 
-    for word in words:
+    for wi, word in enumerate(words):
         with _ScriptedChoice():
             if depth or smp is None:
                 smp, _ = fresh()
@@ -1287,8 +1323,8 @@ def _sub_inversion(sh, case):
             hist = []
             for name in word:
                 hist.append(name)
-                if name == "copy":
-                    smp = copy.deepcopy(smp)
+                if name in ("copy", "shallow"):
+                    smp = copy.deepcopy(smp) if name == "copy" else copy.copy(smp)
                     continue
                 if name == "other":
                     g2 = make_grid(other_shape)
@@ -1310,7 +1346,9 @@ def _sub_inversion(sh, case):
                 k = targets[name]
                 u = 0.95 if k is None else (cum[k] + (cum[k - 1] if k else 0.0)) / 2
                 del walked[:]
-                ret = _key(smp.sample_with_u(u))
+                # u in the forms the library itself and its callers use: numpy.float64 (Uniform.sample), float, keyword
+                form = (wi + len(hist)) % 3
+                ret = _key(smp.sample_with_u(np.float64(u)) if form == 0 else (smp.sample_with_u(u) if form == 1 else smp.sample_with_u(u=u)))
                 walk = list(walked)
                 sh.count("evaluations")
                 where = f"shape {shape}, boundary {bnd}, log bound {keff}, draws {hist}"
@@ -1411,8 +1449,8 @@ def _sub_reuse(sh, case):
                     sh.count("reuse-boundary-op-left-out-too-few-states")
             else:
                 D.boundary = Boundary()
-        elif op == "copy":
-            st["D"] = D2 = copy.deepcopy(D)
+        elif op in ("copy", "dill"):  # the copy is used from then on (dill: what a pool hands to its workers)
+            st["D"] = D2 = copy.deepcopy(D) if op == "copy" else _dill_round_trip(D)
             st["G"], st["P"] = D2.grid, D2.pairing
         elif op == "other":  # a second Domain on a larger grid, same boundary / pairing objects where the pairing allows
             sizes = [(int(tuple(G.origin_coordinate)[0]) , len(a) - int(tuple(G.origin_coordinate)[0]) + 1) for a in G.axes]
